@@ -257,7 +257,7 @@ func runUnary(op string, g geom.Geometry, k int) string {
 	case "Interpolate":
 		if ls, ok := g.AsLineString(); ok {
 			return obsGeom(ls.InterpolatePoint([]float64{0, 0.25, 0.5, 1}[k]).AsGeometry()) +
-				obsGeom(ls.InterpolateEvenlySpacedPoints(k + 1).AsGeometry())
+				obsGeom(ls.InterpolateEvenlySpacedPoints(k+1).AsGeometry())
 		}
 		return "N:notline"
 	}
